@@ -1325,6 +1325,49 @@ mod http_mock {
 	}
 }
 
+/// C05: "nothing belonging to other methods": a plain method notification whose params are given BY POSITION -- two of them, the
+/// first looking like a subscription id -- is not a subscription notification: it reaches the method's stream, no subscription's.
+pub fn client_positional_notification_routing() -> Value {
+	use std::time::Duration;
+	let fail = |input: String, obs: String, exp: &str| json!({"probe":"client_positional_notification_routing","disagrees":true,"input":input,"observed":obs,"expected":exp});
+	rt().block_on(async {
+		let mut tried = 0u64;
+		for packed in [false, true] {
+			for (sid, label) in [(json!(1), "1"), (json!("x"), "\"x\"")] {
+				tried += 1;
+				let (c, mut peer) = mock::client(ClientBuilder::default());
+				let c = std::sync::Arc::new(c);
+				let mut other: Subscription<Value> = c.subscribe_to_method("other").await.unwrap();
+				let c2 = c.clone();
+				let t = tokio::spawn(async move { c2.subscribe::<Value, _>("sub", rpc_params![], "unsub").await });
+				let m = peer.next().await.unwrap();
+				peer.send(&json!({"jsonrpc":"2.0","id":id_of(&m),"result":sid}).to_string());
+				let mut sub = t.await.unwrap().unwrap();
+				let own = |v: &str| json!({"jsonrpc":"2.0","method":"n","params":{"subscription":sid,"result":v}});
+				let foreign = json!({"jsonrpc":"2.0","method":"other","params":[sid, "belongs to method other"]});
+				let msgs = vec![own("a1"), foreign.clone(), own("a2")];
+				if packed { peer.send(&Value::Array(msgs).to_string()); } else { for m in msgs { peer.send(&m.to_string()); } }
+				let desc = format!("subscription with id {label} and a stream on method `other`; the server sends ({}) a1 for the subscription, the method notification {foreign}, a2 for the subscription", if packed {"in one array"} else {"singly"});
+				let mut got = Vec::new();
+				for _ in 0..3 {
+					match tokio::time::timeout(Duration::from_millis(300), sub.next()).await {
+						Ok(Some(Ok(v))) => got.push(v),
+						_ => break,
+					}
+				}
+				if got != vec![json!("a1"), json!("a2")] {
+					return fail(desc, format!("the subscription stream yielded {}", Value::Array(got)), "[\"a1\",\"a2\"]");
+				}
+				match tokio::time::timeout(Duration::from_millis(300), other.next()).await {
+					Ok(Some(Ok(v))) if v == json!([sid, "belongs to method other"]) => {}
+					o => return fail(desc, format!("the stream on method `other` yielded {:?}", o.map(|x| x.map(|y| y.map_err(|e| e.to_string())))), "its notification's params"),
+				}
+			}
+		}
+		json!({"probe":"client_positional_notification_routing","disagrees":false,"inputs_tried":tried,"bound":"subscription ids 1 and \"x\", single / array delivery"})
+	})
+}
+
 /// C05: the stream yields its notifications in order WITHOUT HOLES: once one was discarded because the consumer lagged, no later
 /// one is yielded (the send task is kept busy inside a slow transport send, so the closure request is not handled meanwhile).
 pub fn client_lagged_stream_no_holes() -> Value {
